@@ -1119,7 +1119,8 @@ func (q Quote) Type() Type        { return QUOTE }
 func (q Quote) Inspect() string {
 	out := strings.Builder{}
 	out.WriteString("quote(")
-	q.Node.PrettyPrint(&ast.PrintState{Out: &out})
+	// compact: one line, with the braces of the blocks (at indent level 0 the long form drops them).
+	q.Node.PrettyPrint(&ast.PrintState{Out: &out, Compact: true, IndentLevel: 1})
 	out.WriteString(")")
 	return out.String()
 }
